@@ -367,6 +367,23 @@ def run(tier, seed):
     if missing:
         core.die("C43: %d texts without a record" % len(missing))
 
+    # anomalies are confirmed in isolation (batch=1: a pristine forked copy of a warmed-up compiler per text): a leak
+    # of compiler state between two compilations of one process is not a verdict on the second text
+    def crashy(r):
+        if "died" in r:
+            return True
+        if r["timeout"]:
+            return False
+        return bool(r["escaped"]) or any(e["cls"] != "CompileError" for e in r["errors"]) or \
+            bool(r["raised"] and r["raised"]["cls"] not in ("CompileError", "AbortError"))
+    sus = [c for c in cases if crashy(recs[c.id])]
+    if sus:
+        fresh = LP.compile_texts([{"id": c.id, "b64": LP.b64(c.data), "kind": "py"} for c in sus], os.path.join(wd, "iso"),
+                                 jobs=jobs, per_text_timeout=limit, shard_timeout=6000, tag="iso", batch=1)
+        cov["anomalies_rerun_in_isolation"] = len(fresh)
+        cov["anomalies_not_reproduced_in_isolation"] = sum(1 for r in fresh.values() if not crashy(r))
+        recs.update(fresh)
+
     # the C compiler's answer on a sample of the generated files (g++ on C++ output in the thorough tier)
     by_id = {c.id: c for c in cases}
     chosen = pick_cc(cases, recs, tier, rng)
